@@ -80,6 +80,9 @@ def run(ctx):
                     "req": b == a, "rne": b != a, "rlt": b < a, "rle": b <= a, "rgt": b > a, "rge": b >= a}
         except TypeError:
             return None
+        except Exception as e:  # an internal error of the planner is C07's business: no answer here
+            ctx.count(f"comparisons_other_exception/{type(e).__name__}")
+            return "error"
 
     # ---- exact equal pairs from integer-ratio declarations (hash clause) ---------------------
     exact_pairs = []
@@ -95,7 +98,7 @@ def run(ctx):
             ctx.count("evaluations")
             ctx.count("pairs/Q-Q/declared_equal")
             t = truth(a, b)
-            if t is None:
+            if t is None or t == "error":
                 ctx.count("declared_equal_pairs_without_route")
                 continue
             ctx.distinct(("declared-equal", str(a.unit), str(b.unit)))
@@ -108,7 +111,7 @@ def run(ctx):
                 ctx.violation("C12:eq-not-symmetric", f"{a!r} == {b!r} is {t['eq']} but reverse is {t['req']}", {"a": repr(a), "b": repr(b)})
 
     # ---- generated quantity pairs ---------------------------------------------------------------
-    n = ctx.scale(5000, 500_000)
+    n = ctx.scale(12000, 500_000)
     ratios = [Fraction(1), Fraction(1), Fraction(1001, 1000), Fraction(999, 1000), Fraction(2), Fraction(1, 2), Fraction(10), Fraction(-1), Fraction(-3), Fraction(0)]
     for i in range(n):
         ctx.count("evaluations")
@@ -139,11 +142,16 @@ def run(ctx):
         if not (a == a) or (a != a) or a < a or a > a or not (a <= a) or not (a >= a):
             ctx.violation("C12:not-reflexive", f"{a!r} compared with itself", case)
         t = truth(a, b)
+        if t == "error":
+            continue
         if t is None:
             ctx.count("pairs_without_route")
             # == must still answer (False) without raising, symmetrically
-            if (a == b) or (b == a):
-                ctx.violation("C12:eq-true-without-route", f"{a!r} == {b!r}", case)
+            try:
+                if (a == b) or (b == a):
+                    ctx.violation("C12:eq-true-without-route", f"{a!r} == {b!r}", case)
+            except Exception as e:
+                ctx.count(f"comparisons_other_exception/{type(e).__name__}")
             continue
         o = ordering(a, b)
         ctx.distinct(("Q-Q", pools.shape_class(fa), pools.shape_class(fb), o), a is not b)
@@ -190,6 +198,9 @@ def run(ctx):
                 s = sorted(items)
             except TypeError:
                 ctx.count("sorted_without_route")
+                s = None
+            except Exception as e:
+                ctx.count(f"comparisons_other_exception/{type(e).__name__}")
                 s = None
             if s is not None:
                 ctx.count("sorted_lists")
